@@ -172,6 +172,10 @@ func entryText(e *Entry, subID func(name string) string) string {
 		return head + `"method":"t_echo","params":[1,2,3]}`
 	case "modules":
 		return head + `"method":"rpc_modules"}`
+	case "sfxecho": // an EXISTING method whose name ends in _subscription
+		return head + `"method":"t_subscription","params":[` + q(e.Name) + `]}`
+	case "sfxnone": // a missing method (and service) whose name ends in _subscription
+		return head + `"method":"x_subscription","params":[` + q(e.Name) + `]}`
 	}
 	return head + `"method":"t_nosuch"}`
 }
@@ -222,6 +226,9 @@ func (e *Entry) runsMethod() bool {
 	switch e.Method {
 	case "echo", "fail", "large", "sleep", "block", "sub":
 		return true
+	case "sfxecho":
+		// without an id it is taken for a subscription notification and dropped
+		return e.Kind == "call"
 	}
 	return false
 }
@@ -317,7 +324,7 @@ func (g *gen) entry(unit int, inBatch bool, http bool, base, deadline int64) Ent
 		}
 		return pickTime(r, base, base+200*ms)
 	}
-	m := r.Pick(22, 8, 8, 14, 22, 14, 4, 3, 3, 2)
+	m := r.Pick(22, 8, 8, 14, 22, 14, 4, 3, 3, 2, 3, 2)
 	if http && m == 5 && r.Bool(0.6) {
 		m = 4 // subscriptions are refused on http; keep a few
 	}
@@ -370,8 +377,12 @@ func (g *gen) entry(unit int, inBatch bool, http bool, base, deadline int64) Ent
 		e.Method = "nosuch"
 	case 8:
 		e.Method = "badparams"
-	default:
+	case 9:
 		e.Method = "modules"
+	case 10:
+		e.Method = "sfxecho"
+	default:
+		e.Method = "sfxnone"
 	}
 	return e
 }
@@ -434,6 +445,24 @@ func Gen(r *simcore.Rand, tier string) any {
 				u.GapNS = int64(r.Intn(3)) * 10 * ms
 			}
 			p.Units = append(p.Units, u)
+		}
+		// a small fraction of runs: one subscription issues 40k-56k notifications inside the
+		// subscribe call, i.e. while its response cannot have been written yet
+		if r.Bool(0.006) {
+			var cand []*Entry
+			for ui := range p.Units {
+				for ei := range p.Units[ui].Entries {
+					if e := &p.Units[ui].Entries[ei]; e.Kind == "call" && e.Method == "sub" {
+						cand = append(cand, e)
+					}
+				}
+			}
+			if len(cand) == 0 {
+				u := Unit{AtNS: p.Units[len(p.Units)-1].AtNS, Entries: []Entry{{Name: g.name(), Kind: "call", ID: g.id(len(p.Units) + 1), Method: "sub", N: r.Intn(3), EmitNS: int64(r.Intn(20)) * 10 * ms}}}
+				p.Units = append(p.Units, u)
+				cand = append(cand, &p.Units[len(p.Units)-1].Entries[0])
+			}
+			cand[r.Intn(len(cand))].Pre = 40000 + r.Intn(16001)
 		}
 		p.End = []string{"eof", "eof", "eof", "stop", "stop", "reset", "garbage", "truncated"}[r.Intn(8)]
 		p.EndNS = int64(r.Intn(40)) * 10 * ms
@@ -545,7 +574,17 @@ func Shrink(pl any) []any {
 				qe.Method, qe.N, qe.DurNS, qe.RelNS, qe.Ctx = "echo", 0, 0, 0, false
 				out = append(out, q)
 			}
-			if e.Method == "sub" && (e.N > 0 || e.Pre > 0) {
+			if e.Method == "sub" && e.Pre > 16 {
+				// big cuts first; one by one only below 16
+				for _, np := range []int{0, e.Pre / 2, e.Pre * 3 / 4, e.Pre - 1000, e.Pre - 100, e.Pre - 10, e.Pre - 1} {
+					if np >= 0 && np < e.Pre {
+						q := clonePlan(p)
+						q.Units[i].Entries[j].Pre = np
+						out = append(out, q)
+					}
+				}
+			}
+			if e.Method == "sub" && (e.N > 0 || (e.Pre > 0 && e.Pre <= 16)) {
 				q := clonePlan(p)
 				qe := &q.Units[i].Entries[j]
 				if qe.N > 0 {
